@@ -35,14 +35,14 @@ RULE = ('RandomChoice: probability vectors of 1..1e5 items (float64/float32; lea
         'a case is non-trivial when distinct by content hash and (for choice) has >= 1 item and >= 1 draw')
 TRUSTED = [
     'Coq 8.16.1 kernel incl. vm_compute (no native_compute)',
-    'all 26 theorems closed under the global context (no axioms); C08_choice / C08_choice_accepted are closed over eight / thirteen order and monotonicity '
+    'all 27 theorems closed under the global context (no axioms); C08_choice / C08_choice_accepted are closed over eight / thirteen order and monotonicity '
     'premises on the carrier (proved for the rationals: C08_choice_Q, C08_choice_accepted_Q); that finite IEEE doubles without overflow meet '
     'them (monotone rounding, x/x = 1, 0/x = 0) is a trusted reading, exercised bit-exactly by the correspondence',
     'the generator is an abstract deterministic machine (Section variables rng/seed_rng/draw): MT19937 itself is not modelled',
     'generate_background_events / generate_signal_events are arbitrary state-passing functions of the service they are '
     'handed (premise: all randomness flows through the passed RandomStateService - checked by the request traces, the '
     'equal-seed runs and a static scan for np.random.* globals)',
-    'translator/py2coq.py (89 kernels of G_random.v pinned by K_* lemmas)',
+    'translator/py2coq.py (95 kernels of G_random.v pinned by K_* lemmas)',
     'extraction (ExtrOcamlBasic only) + ocaml/c08/driver.ml + ocaml/common/numf.ml for the float run of RandomChoice',
     'np.searchsorted on a non-decreasing table = number of entries <= v (side=right); np.cumsum = sequential sum; '
     'np.sum in _assert_probabilities read left-to-right (decision kept away from atol)',
@@ -442,6 +442,79 @@ def run_trial_file(ctx):
             m = list(v[1]) if isinstance(v, tuple) and v[0] == 'Ok' else ['Err', v]
             if m != rows:
                 ctx.disagree('extend_trial_data_file.rows', case, rows, m)
+
+
+# ===================================================================== caller-owned keyword dictionaries
+
+def run_kwargs_reuse(ctx):
+    """round 4 (seeded C08-7): the caller's sig_kwargs / bkg_kwargs dictionaries are re-used for generations with
+    DIFFERENT means; every generation must equal the one with a fresh dictionary (same seed), the number of injected
+    events must follow the mean of THAT call, and create_trial_data_file over several means must report n_sig = mean.
+    Deterministic corpus (no randomness in the case shape)."""
+    import skyllh.core.utils.analysis as ua
+    from skyllh.core.random import RandomStateService
+    base = {'kind': 'trial', 'seed': 11, 'ntrials': 1, 'maxrep': 3, 'nfloat': 2, 'scripts': [[(1, 1)]], 'bkg_means': [2.0, 5.0],
+            'bkg_poisson': False, 'scramble': True, 'mean_n_sig': 0.0, 'sig_poisson': False, 'poisson_answers': [],
+            'explicit_minimizer_rss': False, 'alias': False}
+    exprs, impls = [], []
+    for means in ([1, 3], [3, 1], [2, 0, 4], [5, 5, 2], [1, 2, 3, 4]):
+        for poisson in (False, True):
+            case = {'kind': 'kwargs-reuse', 'means': means, 'sig_poisson': poisson}
+            ctx.case(case)
+            ctx.count('kwargs-reuse:generate_pseudo_data')
+            ana = build_analysis(base)
+            sig_kwargs = {'poisson': poisson}
+            bkg_kwargs = {'poisson': False}
+            got, want, used = [], [], []
+            for j, m in enumerate(means):
+                (n_sig, n_ev, evs) = ana.generate_pseudo_data(rss=RandomStateService(seed=100 + j), mean_n_sig=float(m),
+                                                              bkg_kwargs=bkg_kwargs, sig_kwargs=sig_kwargs)
+                got.append(_b((int(n_sig), [int(x) for x in n_ev], evs)))
+                used.append(sig_kwargs.get('mean'))
+                (n_sig2, n_ev2, evs2) = build_analysis(base).generate_pseudo_data(
+                    rss=RandomStateService(seed=100 + j), mean_n_sig=float(m), bkg_kwargs={'poisson': False}, sig_kwargs={'poisson': poisson})
+                want.append(_b((int(n_sig2), [int(x) for x in n_ev2], evs2)))
+                if not poisson and int(n_sig) != m:
+                    ctx.violation('Analysis.generate_signal_events', 'stale-mean-in-caller-kwargs',
+                                  f'generation #{j} with mean_n_sig={m} injected {int(n_sig)} signal events (the dictionary was used '
+                                  f'with {means[:j]} before)', case=case, impl=int(n_sig), model=m,
+                                  predicate='n_sig == mean_n_sig for poisson=False')
+            if got != want:
+                ctx.violation('Analysis.generate_pseudo_data', 'history-dependent', 'generations with a re-used sig_kwargs / bkg_kwargs '
+                              f'dictionary (means {means}) differ from those with a fresh dictionary and the same seed', case=case,
+                              predicate='result is a function of (seed, arguments of the call)')
+            if set(bkg_kwargs) != {'poisson'}:
+                ctx.count('kwargs-reuse:bkg-kwargs-written')
+            exprs.append(f'sig_means_used None {zlist(means)}')
+            impls.append((case, [None if m == 0 else m for m in means], used))
+    # the same through create_trial_data_file(mean_n_sig=[a, b, step]) with one caller-owned dictionary
+    for (lo, hi, step) in ((1, 3, 1), (2, 6, 2)):
+        case = {'kind': 'kwargs-reuse', 'means': [lo, hi, step], 'via': 'create_trial_data_file'}
+        ctx.case(case)
+        ctx.count('kwargs-reuse:create_trial_data_file')
+        try:
+            (_, _, _, td) = ua.create_trial_data_file(ana=build_analysis(base), rss=RandomStateService(seed=4), n_trials=2,
+                                                      mean_n_sig=[lo, hi, step], sig_kwargs={'poisson': False},
+                                                      bkg_kwargs={'poisson': False}, ncpu=1)
+            rows = [(float(a), int(b)) for a, b in zip(td['mean_n_sig'], td['n_sig'])]
+            if any(int(a) != b for a, b in rows):
+                ctx.violation('Analysis.generate_signal_events', 'stale-mean-in-caller-kwargs',
+                              f'trial file rows (mean_n_sig, n_sig) = {rows}: events were not injected with the mean of the row',
+                              case=case, impl=rows, predicate='n_sig == mean_n_sig for poisson=False')
+        except Exception as ex:
+            ctx.violation('create_trial_data_file', 'pipeline-raises-' + exc_name(ex), str(ex)[:200], case=case)
+    if ctx.model_ok and exprs:
+        vals = common.coq_eval('c08kw', IMPORTS, exprs)
+        for (case, want_used, used), v in zip(impls, vals):
+            ctx.corr_cases += 1
+            m = [None if x == 'None' else x[1] for x in v]
+            # the model lists the mean handed to the generator per call; the code's dictionary entry after each call
+            # is the last non-zero mean
+            last, code = None, []
+            for w, u in zip(want_used, used):
+                code.append(None if w is None else (int(u) if u is not None else None))
+            if m != code:
+                ctx.disagree('Analysis.generate_signal_events.sig_kwargs', case, code, m)
 
 
 # ===================================================================== workers
@@ -1890,6 +1963,7 @@ def run(ctx):
     ctx.sample({'choice': {k: (v if k not in ('p', 'u') else [float.fromhex(x) for x in v][:8]) for k, v in cases[0].items()}})
     run_seed(ctx)
     run_trial_file(ctx)
+    run_kwargs_reuse(ctx)
     run_workers(ctx)
     run_completion_order(ctx)
     run_reseed(ctx)
@@ -1940,6 +2014,8 @@ def replay(ctx, rp):
         run_signal(ctx)
     elif kind == 'trial-file':
         run_trial_file(ctx)
+    elif kind == 'kwargs-reuse':
+        run_kwargs_reuse(ctx)
     elif kind == 'static':
         static_scan(ctx)
     else:
